@@ -216,3 +216,423 @@ Proof. intros. apply Z.shiftr_div_pow2. assumption. Qed.
 
 Lemma shiftl_mul : forall a n, 0 <= n -> Z.shiftl a n = a * 2 ^ n.
 Proof. intros. apply Z.shiftl_mul_pow2. assumption. Qed.
+
+(* ====================================================================================
+   Encoder: buffer property, byteout
+   ==================================================================================== *)
+Definition is_byteP (b : Z) : Prop := 0 <= b < 256.
+
+(* reversed buffer: head = most recent byte.  No FF is followed by a byte > 0x8F. *)
+Fixpoint nomark_rev (l : list Z) : Prop :=
+  match l with
+  | y :: t => match t with x :: _ => (x = 255 -> y <= 143) | [] => True end /\ nomark_rev t
+  | [] => True
+  end.
+Definition buf_ok (r : list Z) : Prop := Forall is_byteP r /\ nomark_rev r.
+
+Lemma nomark_rev_tail : forall y t, nomark_rev (y :: t) -> nomark_rev t.
+Proof. intros y t H. destruct H as [_ H]. exact H. Qed.
+
+Lemma buf_ok_cons : forall y r, is_byteP y -> (hd 0 r = 255 -> y <= 143) -> buf_ok r -> buf_ok (y :: r).
+Proof.
+  intros y r Hy Hh [Hb Hn]. split; [constructor; assumption|].
+  destruct r as [|x t]; simpl; [auto|]. split; [exact Hh | exact Hn].
+Qed.
+
+Lemma buf_ok_tail : forall y r, buf_ok (y :: r) -> buf_ok r.
+Proof. intros y r [Hb Hn]. inversion Hb; subst. split; [assumption | eapply nomark_rev_tail; eauto]. Qed.
+
+Lemma buf_ok_head : forall y r, buf_ok (y :: r) -> is_byteP y /\ (hd 0 r = 255 -> y <= 143).
+Proof.
+  intros y r [Hb Hn]. inversion Hb; subst. split; [assumption|].
+  destruct r as [|x t]; simpl in *; [intros; discriminate | tauto].
+Qed.
+
+Record bo_pre (s : Z) (e : enc) (last : Z) (stale : list Z) : Prop := {
+  bp_post : e_post e = last :: stale;
+  bp_buf : buf_ok (last :: e_pre e);
+  bp_c : 0 <= e_c e;
+  bp_s : 1 <= s <= 0x10000;
+  bp_pot : e_c e + s <= 0x9000000;
+  bp_ff : hd 0 (e_pre e) = 255 -> last * 2 ^ 27 + e_c e + s <= 0x90 * 2 ^ 27 }.
+
+Lemma byteout_spec : forall s e last stale, bo_pre s e last stale ->
+  let e' := enc_byteout e in
+  e_a e' = e_a e /\ e_cx e' = e_cx e /\
+  exists last' v,
+    e_pre e' = last' :: e_pre e /\ e_post e' = v :: tl stale /\
+    buf_ok (v :: last' :: e_pre e) /\
+    (e_ct e' = 7 \/ e_ct e' = 8) /\ 0 <= e_c e' /\
+    (e_c e' + s) * 2 ^ (e_ct e') <= 0x9000000 /\
+    (last' = 255 -> v * 2 ^ 27 + (e_c e' + s) * 2 ^ (e_ct e') <= 0x90 * 2 ^ 27).
+Proof.
+  intros s e last stale [Hpost Hbuf Hc Hs Hpot Hff]. cbv zeta.
+  unfold enc_byteout. rewrite Hpost.
+  destruct (buf_ok_head _ _ Hbuf) as [Hlb Hlm]. pose proof (buf_ok_tail _ _ Hbuf) as Hpre.
+  unfold is_byteP in Hlb.
+  set (c := e_c e) in *.
+  change 0xFF with 255. change 0xFFFFF with (2 ^ 20 - 1). change 0x7FFFF with (2 ^ 19 - 1).
+  change 0x8000000 with (2 ^ 27). change 0x7FFFFFF with (2 ^ 27 - 1).
+  rewrite !land_ones_mod by lia. rewrite !shiftr_div by lia.
+  rewrite (land_pow2_eqb c 27) by (change (2 ^ (27 + 1)) with 268435456; lia).
+  change (2 ^ 27) with 134217728 in *. change (2 ^ 20) with 1048576. change (2 ^ 19) with 524288.
+  destruct (Z.eqb_spec last 255) as [Hl|Hl].
+  - (* previous byte is FF: 7 bits + carry position *)
+    cbn [e_a e_cx e_pre e_post e_ct e_c]. split; [reflexivity|]. split; [reflexivity|].
+    exists last, (u8 (c / 1048576)).
+    assert (Hv : 0 <= c / 1048576 < 144) by (Z.div_mod_to_equations; lia).
+    rewrite u8_small by lia.
+    split; [reflexivity|]. split; [reflexivity|].
+    split; [apply buf_ok_cons; [unfold is_byteP; lia | simpl; lia | exact Hbuf]|].
+    split; [left; reflexivity|].
+    change (2 ^ 7) with 128.
+    split; [Z.div_mod_to_equations; lia|].
+    split; [Z.div_mod_to_equations; lia|].
+    intros _. Z.div_mod_to_equations; lia.
+  - destruct (Z.ltb_spec c 134217728) as [Hlt|Hge].
+    + (* no carry *)
+      cbn [e_a e_cx e_pre e_post e_ct e_c]. split; [reflexivity|]. split; [reflexivity|].
+      exists last, (u8 (c / 524288)).
+      assert (Hv : 0 <= c / 524288 < 256) by (Z.div_mod_to_equations; lia).
+      rewrite u8_small by lia.
+      split; [reflexivity|]. split; [reflexivity|].
+      split; [apply buf_ok_cons; [unfold is_byteP; lia | simpl; lia | exact Hbuf]|].
+      split; [right; reflexivity|].
+      change (2 ^ 8) with 256.
+      split; [Z.div_mod_to_equations; lia|].
+      split; [Z.div_mod_to_equations; lia|].
+      intros Hx. lia.
+    + (* carry into the previous byte *)
+      assert (Hl1 : u8 (last + 1) = last + 1) by (apply u8_small; lia).
+      rewrite Hl1.
+      assert (Hprev : hd 0 (e_pre e) = 255 -> last + 1 <= 143).
+      { intros Hp. specialize (Hff Hp). lia. }
+      assert (Hbuf1 : buf_ok (last + 1 :: e_pre e)).
+      { apply buf_ok_cons; [unfold is_byteP; lia | exact Hprev | exact Hpre]. }
+      destruct (Z.eqb_spec (last + 1) 255) as [Hl2|Hl2].
+      * cbn [e_a e_cx e_pre e_post e_ct e_c]. split; [reflexivity|]. split; [reflexivity|].
+        exists (last + 1), (u8 (c mod 134217728 / 1048576)).
+        assert (Hv : 0 <= c mod 134217728 / 1048576 < 16) by (Z.div_mod_to_equations; lia).
+        rewrite u8_small by lia.
+        split; [reflexivity|]. split; [reflexivity|].
+        split; [apply buf_ok_cons; [unfold is_byteP; lia | simpl; lia | exact Hbuf1]|].
+        split; [left; reflexivity|].
+        change (2 ^ 7) with 128.
+        split; [Z.div_mod_to_equations; lia|].
+        split; [Z.div_mod_to_equations; lia|].
+        intros _. Z.div_mod_to_equations; lia.
+      * cbn [e_a e_cx e_pre e_post e_ct e_c]. split; [reflexivity|]. split; [reflexivity|].
+        exists (last + 1), (u8 (c / 524288)).
+        assert (Hv : 0 <= u8 (c / 524288) < 256) by (unfold u8, wrapU; change (2 ^ 8) with 256; apply Z.mod_pos_bound; lia).
+        split; [reflexivity|]. split; [reflexivity|].
+        split; [apply buf_ok_cons; [unfold is_byteP; lia | simpl; lia | exact Hbuf1]|].
+        split; [right; reflexivity|].
+        change (2 ^ 8) with 256.
+        split; [Z.div_mod_to_equations; lia|].
+        split; [Z.div_mod_to_equations; lia|].
+        intros Hx. lia.
+Qed.
+
+(* ====================================================================================
+   Encoder invariant.  With s = ct (shifts left before the next byteout):
+       0x8000 <= a < 0x10000,  1 <= ct <= 12,  0 <= c,
+       (c + a) * 2^ct <= 0x9000000  (= 2^27 + 2^24),
+       and, when the byte before the last one is 0xFF,
+       last * 2^27 + (c + a) * 2^ct <= 0x90 * 2^27
+   (the last clause is what keeps a later carry from pushing the byte after an FF past 0x8F).
+   Encode steps never increase c + a, a renormalisation shift doubles c + a and lowers ct,
+   byteout re-establishes the bound with ct = 7 or 8.  Consequences: c + a <= 0x4800000 at
+   rest and c < 0x9000000 < 2^28 inside renorme, so no uint32 operation of the encoder wraps.
+   ==================================================================================== *)
+Record enc_pre_inv (e : enc) : Prop := {
+  pi_a : 0 < e_a e < 0x10000;
+  pi_ct : 1 <= e_ct e <= 12;
+  pi_c : 0 <= e_c e;
+  pi_pot : (e_c e + e_a e) * 2 ^ e_ct e <= 0x9000000;
+  pi_buf : exists last stale, e_post e = last :: stale /\ buf_ok (last :: e_pre e) /\
+      (hd 0 (e_pre e) = 255 -> last * 2 ^ 27 + (e_c e + e_a e) * 2 ^ e_ct e <= 0x90 * 2 ^ 27);
+  pi_cx : Forall cx_ok (e_cx e) }.
+
+Definition enc_inv (e : enc) : Prop := enc_pre_inv e /\ 0x8000 <= e_a e.
+
+Lemma pow2_split : forall n, 1 <= n -> 2 ^ n = 2 * 2 ^ (n - 1) /\ 1 <= 2 ^ (n - 1).
+Proof.
+  intros n Hn. split.
+  - replace n with (1 + (n - 1)) at 1 by lia. rewrite Z.pow_add_r by lia. reflexivity.
+  - assert (0 < 2 ^ (n - 1)) by (apply Z.pow_pos_nonneg; lia). lia.
+Qed.
+
+Lemma pre_inv_c_bound : forall e, enc_pre_inv e -> 2 * (e_c e + e_a e) <= 0x9000000.
+Proof.
+  intros e [Ha Hct Hc Hpot _ _].
+  destruct (pow2_split (e_ct e) ltac:(lia)) as [E Hq]. rewrite E in Hpot.
+  set (q := 2 ^ (e_ct e - 1)) in *. nia.
+Qed.
+
+Lemma renorme_inv : forall fuel e,
+  enc_pre_inv e -> 0x8000 <= e_a e * 2 ^ Z.of_nat fuel -> enc_inv (enc_renorme_fuel fuel e).
+Proof.
+  induction fuel as [|k IH]; intros e Hpre Hf.
+  - simpl in *. split; [exact Hpre | lia].
+  - cbn [enc_renorme_fuel].
+    destruct (Z.ltb_spec (e_a e) 0x8000) as [Hlt|Hge]; [|split; [exact Hpre | lia]].
+    pose proof (pre_inv_c_bound e Hpre) as Hcb.
+    destruct Hpre as [Ha Hct Hc Hpot (last & stale & Hpost & Hbuf & Hff) Hcx].
+    rewrite !shiftl_mul by lia. change (2 ^ 1) with 2.
+    rewrite !u32_small by (change (2 ^ 32) with 4294967296; lia).
+    destruct (pow2_split (e_ct e) ltac:(lia)) as [E Hq].
+    assert (Hf' : 0x8000 <= e_a e * 2 * 2 ^ Z.of_nat k).
+    { rewrite Nat2Z.inj_succ, Z.pow_succ_r in Hf by lia. lia. }
+    cbn [e_ct].
+    destruct (Z.eqb_spec (e_ct e - 1) 0) as [Hz|Hnz].
+    + (* byteout *)
+      assert (Hct1 : e_ct e = 1) by lia. rewrite Hct1 in *. change (2 ^ 1) with 2 in *.
+      set (e1 := mkEnc (e_a e * 2) (e_c e * 2) (1 - 1) (e_pre e) (e_post e) (e_cx e)).
+      assert (Hbo : bo_pre (e_a e * 2) e1 last stale).
+      { constructor; unfold e1; cbn [e_post e_pre e_c]; try assumption; try lia. }
+      pose proof (byteout_spec _ _ _ _ Hbo) as Hsp. cbv zeta in Hsp.
+      destruct Hsp as (Ea & Ecx & last' & v & Epre & Epost & Hbuf' & Hct' & Hc' & Hpot' & Hff').
+      change (e_a e1) with (e_a e * 2) in Ea. change (e_cx e1) with (e_cx e) in Ecx.
+      change (e_pre e1) with (e_pre e) in Epre, Hbuf'.
+      apply IH; [|rewrite Ea; exact Hf'].
+      constructor.
+      * rewrite Ea. lia.
+      * lia.
+      * exact Hc'.
+      * rewrite Ea. exact Hpot'.
+      * exists v, (tl stale). split; [exact Epost|]. rewrite Epre. split; [exact Hbuf'|].
+        cbn [hd]. rewrite Ea. exact Hff'.
+      * rewrite Ecx. exact Hcx.
+    + apply IH; [|cbn [e_a]; exact Hf'].
+      constructor; cbn [e_a e_c e_ct e_pre e_post e_cx].
+      * lia.
+      * lia.
+      * lia.
+      * rewrite E in Hpot. set (q := 2 ^ (e_ct e - 1)) in *. nia.
+      * exists last, stale. split; [exact Hpost|]. split; [exact Hbuf|].
+        intros Hp. specialize (Hff Hp). rewrite E in Hff. set (q := 2 ^ (e_ct e - 1)) in *. nia.
+      * exact Hcx.
+Qed.
+
+Lemma renorme_inv16 : forall e, enc_pre_inv e -> enc_inv (enc_renorme e).
+Proof.
+  intros e H. apply renorme_inv; [exact H|].
+  destruct H as [Ha _ _ _ _ _]. change (2 ^ Z.of_nat 16) with 65536. lia.
+Qed.
+
+(* an encoder step that keeps ct and the buffer, does not increase c + a, keeps 0 < a < 2^16 *)
+Lemma pre_inv_shrink : forall e a c cx,
+  enc_inv e -> 0 < a < 0x10000 -> 0 <= c -> c + a <= e_c e + e_a e -> Forall cx_ok cx ->
+  enc_pre_inv (enc_set_acx e a c cx).
+Proof.
+  intros e a c cx [[Ha Hct Hc Hpot (last & stale & Hpost & Hbuf & Hff) Hcx] Ha8] Ha' Hc' Hle Hcx'.
+  assert (Hp : 0 < 2 ^ e_ct e) by (apply Z.pow_pos_nonneg; lia).
+  assert (Hm : (c + a) * 2 ^ e_ct e <= (e_c e + e_a e) * 2 ^ e_ct e)
+    by (apply Z.mul_le_mono_nonneg_r; lia).
+  constructor; unfold enc_set_acx; cbn [e_a e_c e_ct e_pre e_post e_cx]; try assumption; try lia.
+  exists last, stale. split; [exact Hpost|]. split; [exact Hbuf|].
+  intros Hp'. specialize (Hff Hp'). lia.
+Qed.
+
+Theorem enc_encode_inv : forall e bit ctx, enc_inv e -> enc_inv (enc_encode e bit ctx).
+Proof.
+  intros e bit ctx Hinv.
+  pose proof Hinv as [[Ha Hct Hc Hpot Hb Hcx] Ha8].
+  pose proof (pre_inv_c_bound e (proj1 Hinv)) as Hcb.
+  unfold enc_encode. cbv zeta.
+  set (cxv := znth (e_cx e) ctx 0).
+  assert (Hcxv : cx_ok cxv) by (apply znth_Forall; [exact Hcx | exact cx_ok_0]).
+  pose proof (cx_ok_state _ Hcxv) as Hst.
+  pose proof (tbl_qe_bound _ Hst) as Hqe.
+  set (qe := tbl_qe (cx_state cxv)) in *.
+  change 0x8000 with 32768 in *. change 0x10000 with 65536 in *.
+  rewrite (u32_small (e_a e - qe)) by (change (2 ^ 32) with 4294967296; lia).
+  rewrite (u32_small (e_c e + qe)) by (change (2 ^ 32) with 4294967296; lia).
+  change 32768 with (2 ^ 15) at 1.
+  rewrite (land_pow2_eqb (e_a e - qe) 15) by (change (2 ^ (15 + 1)) with 65536; lia).
+  change (2 ^ 15) with 32768.
+  assert (Hmps : Forall cx_ok (upd (e_cx e) ctx (cx_after_mps cxv)))
+    by (apply upd_Forall; [exact Hcx | apply cx_after_mps_ok; exact Hcxv]).
+  assert (Hlps : Forall cx_ok (upd (e_cx e) ctx (cx_after_lps cxv)))
+    by (apply upd_Forall; [exact Hcx | apply cx_after_lps_ok; exact Hcxv]).
+  destruct (bit =? cx_mps cxv).
+  - destruct (Z.ltb_spec (e_a e - qe) 32768) as [Hlt|Hge].
+    + destruct (Z.ltb_spec (e_a e - qe) qe) as [Hx|Hx];
+        apply renorme_inv16; apply pre_inv_shrink; try assumption; lia.
+    + split; [|unfold enc_set_acx; cbn [e_a]; lia].
+      apply pre_inv_shrink; try assumption; lia.
+  - destruct (Z.ltb_spec (e_a e - qe) qe) as [Hx|Hx];
+      apply renorme_inv16; apply pre_inv_shrink; try assumption; lia.
+Qed.
+
+Theorem enc_encode_list_inv : forall l e, enc_inv e -> enc_inv (enc_encode_list e l).
+Proof.
+  induction l as [|[b cx] t IH]; intros e H; cbn [enc_encode_list]; [exact H|].
+  apply IH. apply enc_encode_inv. exact H.
+Qed.
+
+Lemma enc_new_inv : forall cx, Forall cx_ok cx -> enc_inv (enc_new_cx cx).
+Proof.
+  intros cx Hcx. unfold enc_new_cx. split; [|cbn [e_a]; lia].
+  constructor; cbn [e_a e_c e_ct e_pre e_post e_cx]; try lia; try assumption.
+  exists 0, []. split; [reflexivity|]. split.
+  - split; [constructor; [unfold is_byteP; lia | constructor] | simpl; auto].
+  - simpl. intros; discriminate.
+Qed.
+
+(* ====================================================================================
+   Flush and the marker property
+   ==================================================================================== *)
+Lemma enc_inv_c_bound : forall e, enc_inv e ->
+  0 <= e_c e /\ e_c e + e_a e <= 0x4800000 /\ e_c e < 2 ^ 27.
+Proof.
+  intros e [Hp Ha]. pose proof (pre_inv_c_bound e Hp). destruct Hp as [_ _ Hc _ _ _].
+  change (2 ^ 27) with 134217728. lia.
+Qed.
+
+(* setbits: the new c lies in [c, c + a) *)
+Lemma setbits_range : forall c a, 0 <= c -> 0x8000 <= a < 0x10000 -> c + a < 2 ^ 32 ->
+  let c1 := Z.lor c 0xFFFF in
+  let c2 := if c1 >=? u32 (c + a) then u32 (c1 - 0x8000) else c1 in
+  c <= c2 < c + a.
+Proof.
+  intros c a Hc Ha Hlt. cbv zeta.
+  change 0xFFFF with (Z.ones 16). rewrite lor_ones_eq by lia.
+  change (Z.ones 16) with 65535. change (2 ^ 16) with 65536.
+  rewrite (u32_small (c + a)) by lia.
+  pose proof (Z.mod_pos_bound c 65536 ltac:(lia)) as Hm.
+  destruct (Z.geb_spec (c - c mod 65536 + 65535) (c + a)) as [Hge|Hl].
+  - rewrite u32_small by lia. lia.
+  - lia.
+Qed.
+
+Lemma nomark_rev_app : forall A y x B, nomark_rev (A ++ y :: x :: B) -> x = 255 -> y <= 143.
+Proof.
+  induction A as [|a A IH]; intros y x B H Hx.
+  - simpl in H. tauto.
+  - apply (IH y x B); [|exact Hx]. simpl app in H. eapply nomark_rev_tail. exact H.
+Qed.
+
+Lemma shift_byteout_spec : forall e last stale,
+  1 <= e_ct e <= 12 -> 0 <= e_c e -> (e_c e + 1) * 2 ^ e_ct e <= 0x9000000 ->
+  e_post e = last :: stale -> buf_ok (last :: e_pre e) ->
+  (hd 0 (e_pre e) = 255 -> last * 2 ^ 27 + (e_c e + 1) * 2 ^ e_ct e <= 0x90 * 2 ^ 27) ->
+  let e' := enc_byteout (enc_shift_ct e) in
+  e_a e' = e_a e /\ e_cx e' = e_cx e /\
+  exists last' v,
+    e_pre e' = last' :: e_pre e /\ e_post e' = v :: tl stale /\
+    buf_ok (v :: last' :: e_pre e) /\
+    (e_ct e' = 7 \/ e_ct e' = 8) /\ 0 <= e_c e' /\
+    (e_c e' + 1) * 2 ^ (e_ct e') <= 0x9000000 /\
+    (last' = 255 -> v * 2 ^ 27 + (e_c e' + 1) * 2 ^ (e_ct e') <= 0x90 * 2 ^ 27).
+Proof.
+  intros e last stale Hct Hc Hpot Hpost Hbuf Hff.
+  assert (Hp : 1 <= 2 ^ e_ct e) by (assert (0 < 2 ^ e_ct e) by (apply Z.pow_pos_nonneg; lia); lia).
+  assert (Hcp : 0 <= e_c e * 2 ^ e_ct e) by (apply Z.mul_nonneg_nonneg; lia).
+  unfold enc_shift_ct, shl32.
+  replace ((0 <=? e_ct e) && (e_ct e <? 32)) with true
+    by (symmetry; apply andb_true_iff; split; [apply Z.leb_le | apply Z.ltb_lt]; lia).
+  rewrite shiftl_mul by lia.
+  rewrite (u32_small (e_c e * 2 ^ e_ct e)) by (change (2 ^ 32) with 4294967296; lia).
+  set (e0 := mkEnc (e_a e) (e_c e * 2 ^ e_ct e) (e_ct e) (e_pre e) (e_post e) (e_cx e)).
+  assert (Hbo0 : bo_pre 1 e0 last stale).
+  { constructor; unfold e0; cbn [e_post e_pre e_c]; try assumption; try lia. }
+  exact (byteout_spec _ _ _ _ Hbo0).
+Qed.
+
+(* What Flush guarantees, in terms of the reversed buffer prefix P = buffer[0..bp-1] after it *)
+Lemma flush_state_spec : forall e, enc_inv e ->
+  exists h P', e_pre (enc_flush_state e) = h :: P' /\ P' <> [] /\ h <> 255 /\ buf_ok (h :: P').
+Proof.
+  intros e Hinv. pose proof (enc_inv_c_bound e Hinv) as (Hc0 & Hcb & _).
+  destruct Hinv as [[Ha Hct Hc Hpot (last & stale & Hpost & Hbuf & Hff) Hcx] Ha8].
+  unfold enc_flush_state.
+  (* setbits *)
+  pose proof (setbits_range (e_c e) (e_a e) Hc ltac:(lia) ltac:(change (2 ^ 32) with 4294967296; lia)) as Hsb.
+  cbv zeta in Hsb.
+  unfold enc_setbits. cbv zeta.
+  set (c2 := if Z.lor (e_c e) 0xFFFF >=? u32 (e_c e + e_a e) then u32 (Z.lor (e_c e) 0xFFFF - 0x8000)
+             else Z.lor (e_c e) 0xFFFF) in *.
+  assert (Hp : 0 <= 2 ^ e_ct e) by (apply Z.pow_nonneg; lia).
+  assert (Hm : (c2 + 1) * 2 ^ e_ct e <= (e_c e + e_a e) * 2 ^ e_ct e)
+    by (apply Z.mul_le_mono_nonneg_r; lia).
+  set (es := mkEnc (e_a e) c2 (e_ct e) (e_pre e) (e_post e) (e_cx e)).
+  destruct (shift_byteout_spec es last stale) as (Ea & Ecx & l1 & v1 & Epre & Epost & Hbuf1 & Hct1 & Hc1 & Hpot1 & Hff1);
+    unfold es; cbn [e_a e_c e_ct e_pre e_post e_cx]; try assumption; try lia.
+  fold es. fold es in Ea, Ecx, Epre, Epost, Hct1, Hc1, Hpot1, Hff1.
+  set (e1 := enc_byteout (enc_shift_ct es)) in *.
+  destruct (shift_byteout_spec e1 v1 (tl stale)) as (Ea2 & Ecx2 & l2 & v2 & Epre2 & Epost2 & Hbuf2 & Hct2 & Hc2 & Hpot2 & Hff2);
+    try assumption; try lia.
+  { rewrite Epre. exact Hbuf1. }
+  { rewrite Epre. cbn [hd]. exact Hff1. }
+  set (e2 := enc_byteout (enc_shift_ct e1)) in *.
+  rewrite Epre in Epre2, Hbuf2.
+  rewrite Epost2.
+  destruct (buf_ok_head _ _ Hbuf2) as [Hv2b Hv2m]. cbn [hd] in Hv2m.
+  change 0xFF with 255.
+  destruct (Z.eqb_spec v2 255) as [Hv|Hv].
+  - exists l2, (l1 :: e_pre e). rewrite Epre2.
+    split; [reflexivity|]. split; [discriminate|].
+    split; [intros Hl; specialize (Hv2m Hl); lia | eapply buf_ok_tail; exact Hbuf2].
+  - cbn [e_pre]. exists v2, (l2 :: l1 :: e_pre e). rewrite Epre2.
+    split; [reflexivity|]. split; [discriminate|]. split; [exact Hv | exact Hbuf2].
+Qed.
+
+(* ---------- the user-facing form of the marker property ---------- *)
+Definition no_marker_in (out : list Z) : Prop :=
+  (forall l1 y l2, out = l1 ++ 255 :: y :: l2 -> y <= 0x8F) /\ (forall l1, out <> l1 ++ [255]).
+
+Theorem enc_flush_no_marker : forall e, enc_inv e ->
+  let out := enc_flush e in
+  Forall is_byteP out /\ no_marker_in out /\ out <> [].
+Proof.
+  intros e Hinv. cbv zeta. unfold enc_flush, enc_get_buffer, enc_bp, zlen.
+  destruct (flush_state_spec e Hinv) as (h & P' & EP & HP' & Hh & Hbuf).
+  rewrite EP.
+  destruct (Z.ltb_spec (Z.of_nat (length (h :: P'))) 1) as [Hl|_]; [simpl length in Hl; lia|].
+  destruct Hbuf as [Hb Hn].
+  (* rev (h :: P') = d :: out *)
+  remember (rev (h :: P')) as R eqn:ER.
+  assert (ER' : h :: P' = rev R) by (rewrite ER, rev_involutive; reflexivity).
+  destruct R as [|d out]; [destruct P'; simpl in ER'; discriminate|].
+  cbn [tl].
+  assert (HbR : Forall is_byteP (d :: out)).
+  { rewrite ER. apply Forall_rev. exact Hb. }
+  split; [inversion HbR; assumption|]. split; [split|].
+  - intros l1 y l2 E. rewrite E in ER'.
+    change (d :: l1 ++ 255 :: y :: l2) with ((d :: l1) ++ 255 :: y :: l2) in ER'.
+    rewrite rev_app_distr in ER'. cbn [rev] in ER'. rewrite <- !app_assoc in ER'. cbn [app] in ER'.
+    rewrite ER' in Hn. apply (nomark_rev_app _ _ _ _ Hn). reflexivity.
+  - intros l1 E. rewrite E in ER'.
+    change (d :: l1 ++ [255]) with ((d :: l1) ++ [255]) in ER'.
+    rewrite rev_app_distr in ER'. cbn [rev app] in ER'. inversion ER'. congruence.
+  - intros E. rewrite E in ER'. cbn [rev app] in ER'. inversion ER'. subst. apply HP'. reflexivity.
+Qed.
+
+(* mq_no_marker: any decision sequence from a fresh encoder, any valid initial contexts *)
+Theorem mq_no_marker_cx : forall cx l, Forall cx_ok cx ->
+  let out := mq_encode_cx cx l in
+  Forall is_byteP out /\ no_marker_in out /\ out <> [].
+Proof.
+  intros cx l Hcx. unfold mq_encode_cx. apply enc_flush_no_marker.
+  apply enc_encode_list_inv. apply enc_new_inv. exact Hcx.
+Qed.
+
+Theorem mq_no_marker : forall n l,
+  let out := mq_encode n l in
+  Forall is_byteP out /\ no_marker_in out /\ out <> [].
+Proof.
+  intros n l. unfold mq_encode. apply mq_no_marker_cx. apply zrepeat_Forall. exact cx_ok_0.
+Qed.
+
+(* the encoder invariant along every decision sequence, as one statement *)
+Theorem mq_encoder_invariant : forall cx l, Forall cx_ok cx ->
+  let e := enc_encode_list (enc_new_cx cx) l in
+  0x8000 <= e_a e < 0x10000 /\ 1 <= e_ct e <= 12 /\
+  0 <= e_c e /\ (e_c e + e_a e) * 2 ^ e_ct e <= 0x9000000 /\ e_c e < 2 ^ 27.
+Proof.
+  intros cx l Hcx. cbv zeta.
+  pose proof (enc_encode_list_inv l _ (enc_new_inv cx Hcx)) as H.
+  pose proof (enc_inv_c_bound _ H) as (H1 & H2 & H3).
+  destruct H as [[Ha Hct Hc Hpot _ _] Ha8]. repeat split; try lia; assumption.
+Qed.
